@@ -22,7 +22,7 @@ package planner
 //@   modifies p.tbl.Data, p.tbl.#lock_mu
 //@   ensures[lock] p.tbl.#lock_mu == 0
 //@   ensures[permutation] perm(old(p.tbl.Data), p.tbl.Data)
-//@   ensures[sorted] len(p.stm.orderBy) > 0 ==> sortedBy(p.tbl.Data, p.stm.orderBy)
+//@   ensures[sorted] len(p.stm.orderBy) > 0 && old(strictWeakOrder(p.tbl.Data, p.stm.orderBy)) ==> sortedBy(p.tbl.Data, p.stm.orderBy)
 //@   ensures[no-order] len(p.stm.orderBy) == 0 ==> p.tbl.Data == old(p.tbl.Data)
 
 // LIMIT may be handed to the storage lookup (MaxElements) only when nothing after the pattern
@@ -32,10 +32,12 @@ package planner
 //@ props C12 C13 C11 C08
 //@ func (p *queryPlan) processClause
 //@   opt modifies-everything
+//@   opt obligations assert
 //@   requires p != nil && p.stm != nil && p.tbl != nil && cls != nil && lo != nil
 //@   atcall simpleFetch assert[limit-push-down] stmLimit != 0 ==> len(p.stm.pattern) == 1 && len(p.stm.groupBy) == 0 && len(p.stm.havingExpression) == 0 && len(p.stm.orderBy) == 0
 
 //@ func (p *queryPlan) addSpecifiedData
 //@   opt modifies-everything
+//@   opt obligations assert
 //@   requires p != nil && p.stm != nil && p.tbl != nil && cls != nil && lo != nil
 //@   atcall simpleFetch assert[limit-push-down] stmLimit != 0 ==> len(p.stm.pattern) == 1 && len(p.stm.groupBy) == 0 && len(p.stm.havingExpression) == 0 && len(p.stm.orderBy) == 0
